@@ -26,6 +26,10 @@ Good(ev, i) ==
     [] ev.fn = "crc32c" -> ev.bins[i] = CRC32(m, <<0, 0>>)
     [] ev.fn = "fnv32c" -> ev.bins[i] = FNV1a32(m, Fnv32Start)
     [] ev.fn = "fnv64c" -> ev.bins[i] = FNV1a64(m, Fnv64Start)
+    (* explicit running value: the published recurrence continued from any intermediate state *)
+    [] ev.fn = "crc32s" -> ev.bins[i] = CRC32(m, ev.seeds[i])
+    [] ev.fn = "fnv32s" -> ev.bins[i] = FNV1a32(m, ev.seeds[i])
+    [] ev.fn = "fnv64s" -> ev.bins[i] = FNV1a64(m, ev.seeds[i])
     [] OTHER -> FALSE
 Step(ev) ==
   CASE ev.e = "Reset" -> TRUE
